@@ -1,5 +1,6 @@
 import AmaranthVerif.Proofs.DomainQuiet
 import AmaranthVerif.Spec.DomainSpec
+import AmaranthVerif.Proofs.ProcessSpec
 
 /-!
 # C03 — clock domains, resets and control inserters behave as specified
@@ -24,6 +25,10 @@ Proved here for all designs, states and events:
 * `async_reset_only_resettable` — a rising asynchronous reset never touches reset-less signals or
   signals the domain does not drive;
 * `renamer_moves_only_domain` — `DomainRenamer` changes the domain key and nothing else.
+
+* `edge_writes` — at an active edge of its domain with the reset (if any) not asserted, a synchronous process
+  changes the state by exactly its active assignments, the last one winning per bit; every other bit of every
+  signal — also the undriven bits of a partially driven signal, and signals of other domains — keeps its value.
 
 Not proved for all inputs (compared on every run): that the reset assignments (`signal[chunk] :=
 init[chunk]` per driven chunk) load exactly the driven bits — the bit-level `assign_bits` lemma
@@ -124,6 +129,28 @@ theorem sync_reset_loads_init (ctx : Ctx) (inits : Env) (rl : List Bool) (r : In
 /-- without an asserted reset the pending values are what the statements computed -/
 theorem sync_no_reset (ctx : Ctx) (inits : Env) (rl : List Bool) (body : Stmt) (cur : Env) :
     syncNext ctx inits rl none body cur = execRtl ctx cur body cur := rfl
+
+/-- At an active clock edge without reset, one synchronous process turns the state `acc` (what the processes before it
+left; equal to the current values on the bits this process drives — one driver per bit, C06) into `acc` with its
+active assignments applied, last one winning per bit. -/
+theorem edge_writes (D : Design) (cur cur' : Env) (hok : EnvOk D.ctx cur') (p : Proc) (d : Nat) (hd : p.dom = some d)
+    (hclk : (D.doms.getD d default).clkFired cur cur' = true) (hrf : (D.doms.getD d default).rstFired cur cur' = false)
+    (hnr : ∀ r, (D.doms.getD d default).rst = some r → (pyAnd 1 (cur'.val r) != 0) = false)
+    (acc : Env) (hC : EnvN D.ctx cur') (hA : EnvN D.ctx acc)
+    (htg : ∀ e ∈ stmtTargets p.body, e.twf D.ctx = true ∧ e.noAlias D.ctx cur')
+    (hown : ∀ i b, i < D.ctx.length → b < (D.ctx.shape i).width →
+      ibit ((stmtMask D.ctx p.body (List.replicate D.ctx.length 0)).get i) b = true → bitAt acc i b = bitAt cur' i b) :
+    procAtEvent D cur cur' p acc = applyWrites D.ctx cur' (stmtWrites D.ctx cur' p.body) acc := by
+  unfold procAtEvent
+  simp only [hd, hclk, hrf, if_true, Bool.false_eq_true, if_false]
+  have hs : syncNext D.ctx D.inits D.resetLess (Option.map (fun r => cur'.val r) (D.doms.getD d default).rst) p.body cur' =
+      execRtl D.ctx cur' p.body cur' := by
+    unfold syncNext
+    cases hr : (D.doms.getD d default).rst with
+    | none => rfl
+    | some r => simp only [Option.map_some, hnr r hr, Bool.false_eq_true, if_false]
+  rw [hs]
+  exact sync_process_effect D.ctx cur' hok p.body acc hC hA htg hown
 
 /-- A rising asynchronous reset never touches reset-less signals, nor signals the domain does not drive. -/
 theorem async_reset_only_resettable (ctx : Ctx) (inits : Env) (rl : List Bool) (body : Stmt) (acc : Env) (i : Nat)
